@@ -1696,6 +1696,10 @@ func (p *scionPacketProcessor) validateSrcHost() disposition {
 		return pForward
 	}
 	src, err := p.scionLayer.SrcAddr()
+	if err == nil && src.Type() != addr.HostTypeIP {
+		// Not an IP address (e.g. a service address): nothing to check, and src.IP() would panic.
+		return pForward
+	}
 	if err == nil && src.IP().Is4In6() {
 		err = ErrUnsupportedV4MappedV6Address
 	}
